@@ -36,6 +36,8 @@ type obsTerm struct {
 }
 
 type Exec struct {
+	shared map[string]bool // heap components of struct fields declared shared in a confine block
+	goEpoch int // anonymous goroutine bodies executed so far
 	mute bool // an expression is being re-evaluated for its value only: its obligations were generated where the code evaluates it
 	observe []obsTerm
 	inlinedKeys []string
@@ -180,10 +182,40 @@ func (x *Exec) comp(st *State, name, sortName string) Val {
 	if v, ok := st.heap[name]; ok {
 		return v
 	}
+	if st.epoch != "" && !x.sharedComp(name) {
+		c := x.declare("H"+st.epoch+"_"+name, sortName)
+		v := Val{T: c, S: sortName}
+		st.heap[name] = v
+		return v
+	}
 	c := x.declare("H0_"+name, sortName)
 	v := Val{T: c, S: sortName}
 	st.heap[name] = v
 	return v
+}
+
+// sharedComp: the heap component holds a struct field that a confine block declares shared:
+// written by the constructor before its go statement only (C20 checks exactly that), so every
+// goroutine reads the same value at any time.
+func (x *Exec) sharedComp(name string) bool {
+	if x.shared == nil {
+		x.shared = map[string]bool{}
+		for _, c := range x.sp.Confines {
+			p := c.Pkg
+			if strings.HasPrefix(p, modRoot+"/") {
+				p = strings.TrimPrefix(p, modRoot+"/")
+			} else if p == modRoot {
+				p = "root"
+			} else if i := strings.LastIndex(p, "/"); i >= 0 {
+				p = p[i+1:]
+			}
+			id := sane(p) + "_" + sane(c.Type)
+			for _, f := range c.Shared {
+				x.shared["fld_"+id+"_"+sane(f)] = true
+			}
+		}
+	}
+	return x.shared[name]
 }
 
 func (x *Exec) setComp(st *State, name string, v Val) {
